@@ -1,8 +1,9 @@
 /-
-C20 (a): the schedule class of the finding `len-drift`. Without an external writer, without Discard and as long
-as no producer gets an index past the window check that the chain has already passed (a stale height read
-racing with the application of the same block), `len` is exact: whenever `Run` is not between `AddItem` and its
-second lock section, `len` is the number of occupied slots, so `LastQueued` reports the true free capacity.
+C20 (a): `len` after the fix 3d50aab (Put counts an element only when its slot was empty, the clean-up loop of Run
+removes what other writers applied): for EVERY interleaving — stale heights, external additions, Discard — `len`
+never exceeds the number of occupied slots, so `LastQueued` never under-reports the free capacity (the old
+upward drift is gone). It can still fall below it: Run's second lock section counts down also when its slot was
+re-used meanwhile (Props/C20.lean, `queue_len_undercount_witness`).
 -/
 import NeoModel.Proofs.QueueNoExt
 namespace NeoModel.Queue
@@ -44,274 +45,85 @@ theorem occN_setSlot (ring : Nat → Option Elem) (p : Nat) (v : Option Elem) (n
       have := ih (by omega)
       omega
 
-/-- No external writer, no Discard, and no producer whose stale height lets an index the chain has passed get
-past the check `element.GetIndex() <= h` (queue.go:160). -/
-def freshAct (s : State) : Act → Bool
-  | .put e hr => decide (s.height < e.idx) || decide (e.idx ≤ min hr s.height)
-  | .run => true
-  | .adv => false
-  | .disc => false
-
-def freshPutsB : State → List Act → Bool
-  | _, [] => true
-  | s, a :: r => freshAct s a && freshPutsB (apply s a) r
-
-def FreshPuts (s : State) (as : List Act) : Prop := freshPutsB s as = true
-
-/-- what `len` counts beyond the occupied slots: the element `Run` has applied whose slot a producer has
-re-used before `Run`'s second lock section -/
-def extra (s : State) : Int :=
-  match s.pc with
-  | .added b pos => if s.ring pos = some b then 0 else 1
-  | _ => 0
-
-structure Exact (s : State) : Prop where
-  len : s.len = (occN s.ring s.cap : Int) + extra s
-  live : ∀ p x, s.ring p = some x → s.height < x.idx ∨ ∃ pos, s.pc = .added x pos
-  hold : ∀ b pos, s.pc = .holding b pos → s.ring pos = some b
-  addedLive : ∀ b pos, s.pc = .added b pos → s.height ≤ b.idx
-  addedSlot : ∀ b pos, s.pc = .added b pos → s.ring pos = some b ∨ ∃ x, s.ring pos = some x ∧ b.idx + s.cap ≤ x.idx
-
-theorem exact_init (cap h0 : Nat) : Exact (init cap h0) := by
-  refine ⟨?_, fun p x h => by simp [init] at h, fun b pos h => by simp [init] at h,
-    fun b pos h => by simp [init] at h, fun b pos h => by simp [init] at h⟩
-  have : ∀ n, occN (fun _ => none) n = 0 := by
-    intro n; induction n with
-    | zero => rfl
-    | succ n ih => simp [occN, ih]
-  simp [init, extra, this]
-
 theorem posOf_lt (cap i : Nat) (h : 0 < cap) : posOf cap i < cap := Nat.mod_lt _ h
 
-theorem exact_insert (s : State) (e : Elem) (hi : Inv s) (hx : Exact s) (hlive : s.height < e.idx)
-    (hwin : e.idx ≤ s.height + s.cap) (hk : keepsOld (s.ring (posOf s.cap e.idx)) e = false) :
-    Exact (insert s e) := by
-  have hp := posOf_lt s.cap e.idx hi.cap_pos
-  have hcount := occN_setSlot s.ring (posOf s.cap e.idx) (some e) s.cap hp
-  -- what the slot held
-  have hold : s.ring (posOf s.cap e.idx) = none ∨
-      ∃ b, s.ring (posOf s.cap e.idx) = some b ∧ s.pc = .added b (posOf s.cap e.idx) ∧ b.idx + s.cap ≤ e.idx := by
-    cases hs : s.ring (posOf s.cap e.idx) with
-    | none => exact .inl rfl
-    | some old =>
-      right
-      rw [hs] at hk
-      simp only [keepsOld, Bool.not_eq_false', decide_eq_true_eq] at hk
-      have hslot := hi.slot _ _ hs
-      have hge := mod_eq_lt_add (a := e.idx) (b := old.idx) (c := s.cap) (by simpa [posOf] using hslot.symm) hk
-      rcases hx.live _ _ hs with h1 | ⟨pos, h1⟩
-      · omega
-      · have := (hi.pcB old pos (.inr h1)).1
-        rw [hslot] at this
-        exact ⟨old, rfl, by rw [this]; exact h1, hge⟩
-  refine ⟨?_, ?_, ?_, ?_, ?_⟩
-  · -- len
-    simp only [insert, extra]
-    rcases hold with hn | ⟨b, hb, hpc, hge⟩
-    · rw [hn] at hcount
-      have hl := hx.len
-      simp only [extra] at hl
-      cases hpc : s.pc with
-      | added b pos =>
-        simp only [hpc] at hl ⊢
-        by_cases e1 : pos = posOf s.cap e.idx
-        · subst e1
-          -- an applied element's slot is never empty before the second lock section
-          rcases hx.addedSlot b _ hpc with h2 | ⟨x, h2, _⟩ <;> rw [hn] at h2 <;> cases h2
-        · have hso := setSlot_other s.ring (some e) e1
-          simp only [hso]
-          simp only [Option.isSome_none, Bool.false_eq_true, if_false, Option.isSome_some, if_true] at hcount
-          split <;> split at hl <;> first | omega | contradiction
-      | _ =>
-        simp only [hpc] at hl ⊢
-        simp only [Option.isSome_none, Bool.false_eq_true, if_false, Option.isSome_some, if_true] at hcount
-        omega
-    · rw [hb] at hcount
-      simp only [Option.isSome_some, if_true] at hcount
-      have hl := hx.len
-      simp only [extra, hpc, hb, if_true] at hl
-      simp only [hpc, setSlot_same]
-      have hne : (some e : Option Elem) ≠ some b := by
-        intro h; cases h; omega
-      simp only [hne, if_false]
-      omega
-  · -- live
-    intro p x hr
-    simp only [insert, setSlot] at hr
-    split at hr
-    · cases hr; exact .inl hlive
-    · rcases hx.live p x hr with h1 | ⟨pos, h1⟩
-      · exact .inl h1
-      · exact .inr ⟨pos, h1⟩
-  · -- hold
-    intro b pos hpc
-    simp only [insert] at hpc
-    have hb := hx.hold b pos hpc
-    simp only [insert, setSlot]
-    split
-    · rename_i e1
-      subst e1
-      rcases hold with hn | ⟨b', _, hpc', _⟩
-      · rw [hn] at hb; cases hb
-      · rw [hpc] at hpc'; cases hpc'
-    · exact hb
-  · intro b pos hpc; exact hx.addedLive b pos hpc
-  · intro b pos hpc
-    simp only [insert] at hpc
-    simp only [insert, setSlot]
-    split
-    · rename_i e1
-      subst e1
-      right
-      refine ⟨e, rfl, ?_⟩
-      rcases hold with hn | ⟨b', hb', hpc', hge⟩
-      · rcases hx.addedSlot b _ hpc with h2 | ⟨x, h2, _⟩ <;> rw [hn] at h2 <;> cases h2
-      · rw [hpc] at hpc'; cases hpc'; exact hge
-    · exact hx.addedSlot b pos hpc
+theorem occN_none (n : Nat) : occN (fun _ => none) n = 0 := by
+  induction n with
+  | zero => rfl
+  | succ n ih => simp [occN, ih]
 
-theorem exact_run (s : State) (hc : 2 ≤ s.cap) (hi : Inv s) (hx : Exact s) : Exact (runStep s) := by
-  have hslot := hi.slot
-  have hpcB := hi.pcB
-  have hcp := hi.cap_pos
-  obtain ⟨cap, ring, lastQ, len, height, lastHeight, pc, signal, discarded, log⟩ := s
-  obtain ⟨hl, hlv, hhold, haL, haS⟩ := hx
-  simp only at hc hslot hpcB hcp hl hlv hhold haL haS
-  -- outside the `added` state every queued element is above the chain height
-  have hlive : (∀ b pos, pc ≠ .added b pos) → ∀ p x, ring p = some x → height < x.idx := by
-    intro hna p x h
-    rcases hlv p x h with h1 | ⟨pos, h1⟩
-    · exact h1
-    · exact absurd h1 (hna x pos)
-  cases pc with
-  | init =>
-    simp only [extra] at hl
-    simp only [runStep, start]
-    exact ⟨by simpa [extra] using hl, fun p x h => .inl (hlive (by simp) p x h),
-      fun b pos h => by simp at h, fun b pos h => by simp at h, fun b pos h => by simp at h⟩
-  | wait =>
-    simp only [extra] at hl
-    simp only [runStep, wake]
+/-- `len` does not exceed the number of occupied slots. -/
+def NoOver (s : State) : Prop := s.len ≤ (occN s.ring s.cap : Int)
+
+theorem noOver_cleanup (cap : Nat) (hc : 0 < cap) (n i : Nat) (ring : Nat → Option Elem) (len : Int)
+    (h : len ≤ (occN ring cap : Int)) :
+    (cleanup cap n i ring len).2 ≤ (occN (cleanup cap n i ring len).1 cap : Int) := by
+  induction n generalizing i ring len with
+  | zero => simpa [cleanup] using h
+  | succ n ih =>
+    simp only [cleanup]
     split
-    · exact ⟨by simpa [extra] using hl, fun p x h => .inl (hlive (by simp) p x h),
-        fun b pos h => by simp at h, fun b pos h => by simp at h, fun b pos h => by simp at h⟩
-    · split
-      · exact ⟨by simpa [extra] using hl, fun p x h => .inl (hlive (by simp) p x h),
-          fun b pos h => by simp at h, fun b pos h => by simp at h, fun b pos h => by simp at h⟩
-      · exact ⟨by simpa [extra] using hl, hlv, hhold, haL, haS⟩
-  | top =>
-    simp only [extra] at hl
-    simp only [runStep, readH]
-    exact ⟨by simpa [extra] using hl, fun p x h => .inl (hlive (by simp) p x h),
-      fun b pos h => by simp at h, fun b pos h => by simp at h, fun b pos h => by simp at h⟩
-  | haveH h =>
-    simp only [extra] at hl
-    have hdead := cleanup_dead cap (h - lastHeight) lastHeight ring len hc hslot
-    simp only [runStep, lockSection, hdead]
-    cases hr : ring (posOf cap (h + 1)) with
-    | none =>
-      exact ⟨by simpa [extra] using hl, fun p x h => .inl (hlive (by simp) p x h),
-        fun b pos h => by simp at h, fun b pos h => by simp at h, fun b pos h => by simp at h⟩
-    | some b' =>
-      refine ⟨by simpa [extra] using hl, fun p x h => .inl (hlive (by simp) p x h), ?_,
-        fun b pos h => by simp at h, fun b pos h => by simp at h⟩
-      intro b pos hp
-      simp only [Pc.holding.injEq] at hp
-      obtain ⟨rfl, rfl⟩ := hp
-      exact hr
-  | holding b pos =>
-    simp only [extra] at hl
-    have hb : ring pos = some b := hhold b pos rfl
-    have hbl : height < b.idx := hlive (by simp) pos b hb
-    simp only [runStep, addItem]
-    refine ⟨by simpa [extra, hb] using hl, ?_, fun b' pos' h => by simp at h, ?_, ?_⟩
-    · intro p x h
-      simp only at h ⊢
-      have h1 := hlive (by simp) p x h
-      by_cases hacc : accepts height b = true
-      · simp only [hacc, if_true]
-        by_cases e1 : x.idx = height + 1
-        · right
-          have hbi : b.idx = height + 1 := by
-            simp only [accepts, Bool.and_eq_true, beq_iff_eq] at hacc; exact hacc.2
-          have hp1 := hslot p x h
-          have hp2 := hslot pos b hb
-          have : p = pos := by rw [← hp1, ← hp2, e1, hbi]
-          subst this
-          rw [hb] at h; cases h
-          exact ⟨p, rfl⟩
-        · left; omega
-      · simp only [hacc, Bool.false_eq_true, if_false]; exact .inl h1
-    · intro b' pos' h
-      simp only [Pc.added.injEq] at h
-      obtain ⟨rfl, rfl⟩ := h
-      simp only
+    · rename_i x hx
       split
-      · rename_i hacc
-        simp only [accepts, Bool.and_eq_true, beq_iff_eq] at hacc
+      · apply ih
+        have hcount := occN_setSlot ring (posOf cap (i + 1)) none cap (posOf_lt _ _ hc)
+        rw [hx] at hcount
+        simp only [Option.isSome_some, if_true, Option.isSome_none, Bool.false_eq_true, if_false] at hcount
         omega
-      · omega
-    · intro b' pos' h
-      simp only [Pc.added.injEq] at h
-      obtain ⟨rfl, rfl⟩ := h
-      exact .inl hb
-  | added b pos =>
-    simp only [extra] at hl
-    have hpos : pos < cap := by
-      have := (hpcB b pos (.inr rfl)).1
-      rw [← this]; exact posOf_lt _ _ hcp
-    simp only [runStep, finish]
-    by_cases hb : ring pos = some b
-    · simp only [hb, if_true] at hl ⊢
-      have hcount := occN_setSlot ring pos none cap hpos
-      rw [hb] at hcount
-      simp only [Option.isSome_some, if_true, Option.isSome_none, Bool.false_eq_true, if_false] at hcount
-      refine ⟨by simp only [extra]; omega, ?_, fun b' pos' h => by simp at h, fun b' pos' h => by simp at h,
-        fun b' pos' h => by simp at h⟩
-      intro p x h
-      simp only [setSlot] at h
-      split at h
-      · cases h
-      · rename_i hne
-        rcases hlv p x h with h1 | ⟨p', h1⟩
-        · exact .inl h1
-        · simp only [Pc.added.injEq] at h1
-          obtain ⟨rfl, rfl⟩ := h1
-          have := hslot p b h
-          have h2 := hslot _ _ hb
-          exact absurd (this.symm.trans h2) hne
-    · simp only [hb, if_false] at hl ⊢
-      refine ⟨by simp only [extra]; omega, ?_, fun b' pos' h => by simp at h, fun b' pos' h => by simp at h,
-        fun b' pos' h => by simp at h⟩
-      intro p x h
-      rcases hlv p x h with h1 | ⟨p', h1⟩
-      · exact .inl h1
-      · simp only [Pc.added.injEq] at h1
-        obtain ⟨rfl, rfl⟩ := h1
-        have h2 := (hpcB b pos (.inr rfl)).1
-        have := hslot p b h
-        rw [h2] at this
-        subst this
-        exact absurd h hb
-  | done => exact ⟨hl, hlv, hhold, haL, haS⟩
+      · exact ih _ _ _ h
+    · exact ih _ _ _ h
 
-theorem exact_apply (s : State) (a : Act) (hc : 2 ≤ s.cap) (hi : Inv s) (hx : Exact s)
-    (hf : freshAct s a = true) : Exact (apply s a) := by
+theorem noOver_apply (s : State) (a : Act) (hi : Inv s) (hx : NoOver s) : NoOver (apply s a) := by
+  unfold NoOver at hx ⊢
   cases a with
-  | adv => simp [freshAct] at hf
-  | disc => simp [freshAct] at hf
-  | run => exact exact_run s hc hi hx
+  | adv => exact hx
+  | disc =>
+    simp only [apply, discard]
+    split
+    · exact hx
+    · simp [occN_none]
   | put e hr =>
     simp only [apply]
-    rcases put_cases s e (min hr s.height) with h | h | ⟨_, h2, h3, h4, h5⟩
+    rcases put_cases s e (min hr s.height) with h | h | ⟨_, _, _, _, h5⟩
     · rw [h]; exact hx
-    · rw [h]; exact ⟨hx.len, hx.live, hx.hold, hx.addedLive, hx.addedSlot⟩
+    · rw [h]; exact hx
     · rw [h5]
-      have hlive : s.height < e.idx := by
-        simp only [freshAct, Bool.or_eq_true, decide_eq_true_eq] at hf
-        rcases hf with h | h
-        · exact h
-        · omega
-      exact exact_insert s e hi hx hlive (by have := Nat.min_le_right hr s.height; omega) h4
+      have hcount := occN_setSlot s.ring (posOf s.cap e.idx) (some e) s.cap (posOf_lt _ _ hi.cap_pos)
+      simp only [insert]
+      cases hs : s.ring (posOf s.cap e.idx) with
+      | none =>
+        rw [hs] at hcount
+        simp only [Option.isSome_none, Bool.false_eq_true, if_false, Option.isSome_some, if_true] at hcount ⊢
+        omega
+      | some old =>
+        rw [hs] at hcount
+        simp only [Option.isSome_some, if_true] at hcount ⊢
+        omega
+  | run =>
+    simp only [apply, runStep]
+    split
+    · exact hx
+    · unfold wake
+      split
+      · exact hx
+      · split <;> exact hx
+    · exact hx
+    · simp only [lockSection]
+      exact noOver_cleanup s.cap hi.cap_pos _ _ s.ring s.len hx
+    · exact hx
+    · rename_i b pos hpc
+      have hpos : pos < s.cap := by
+        have := (hi.pcB b pos (.inr hpc)).1
+        rw [← this]; exact posOf_lt _ _ hi.cap_pos
+      simp only [finish]
+      split
+      · rename_i hb
+        have hcount := occN_setSlot s.ring pos none s.cap hpos
+        rw [hb] at hcount
+        simp only [Option.isSome_some, if_true, Option.isSome_none, Bool.false_eq_true, if_false] at hcount
+        omega
+      · omega
+    · exact hx
 
 theorem exec_cap (s : State) (as : List Act) : (exec s as).cap = s.cap := by
   induction as generalizing s with
@@ -328,14 +140,9 @@ theorem exec_cap (s : State) (as : List Act) : (exec s as).cap = s.cap := by
       · rfl
       · split <;> rfl
 
-theorem exact_exec (s : State) (as : List Act) (hc : 2 ≤ s.cap) (hi : Inv s) (hx : Exact s)
-    (hf : FreshPuts s as) : Exact (exec s as) := by
+theorem noOver_exec (s : State) (as : List Act) (hi : Inv s) (hx : NoOver s) : NoOver (exec s as) := by
   induction as generalizing s with
   | nil => exact hx
-  | cons a r ih =>
-    unfold FreshPuts at hf
-    simp only [freshPutsB, Bool.and_eq_true] at hf
-    have hcap : (apply s a).cap = s.cap := exec_cap s [a]
-    exact ih _ (by rw [hcap]; exact hc) (inv_apply s a hi) (exact_apply s a hc hi hx hf.1) hf.2
+  | cons a r ih => exact ih _ (inv_apply s a hi) (noOver_apply s a hi hx)
 
 end NeoModel.Queue
